@@ -550,6 +550,13 @@ class SymRange:
         self.lo, self.hi = lo, hi
 
 
+class EnumVal:
+    """enumerate(seq) as a value (returned by a method, iterated by the caller)."""
+
+    def __init__(self, seq):
+        self.seq = seq
+
+
 class ObjArray(tuple):
     """np.array of a concrete list of objects / None (LayoutSwapper.getAxes): only elementwise ==/!= None and np.nonzero."""
 
